@@ -106,7 +106,7 @@ func TestVerifC11Http(t *testing.T) {
 	key := verifUserECKey()
 	nLists := 14
 	if verifThorough() {
-		nLists = 200
+		nLists = 600
 	}
 	var lists [][]string
 	lists = append(lists, []string{"10.20.0.0/16", "192.168.7.128/25"}, []string{"127.0.0.0/8"}, []string{"0.0.0.0/0"}, []string{"203.0.113.77/32"},
@@ -294,7 +294,7 @@ func TestVerifC11Http(t *testing.T) {
 	ca := verifSigner("ca_rsa2048")
 	nCorrupt := 150
 	if verifThorough() {
-		nCorrupt = 5000
+		nCorrupt = 20000
 	}
 	good := verifIPExtension([]net.IPNet{mustCIDR("10.20.0.0/16")}).Value
 	for i := 0; i < nCorrupt; i++ {
